@@ -552,7 +552,8 @@ def check_chain(ctx, chain, res, env, findings, mres, layout):
 def run(ctx):
     rep, rng, sc = ctx.rep, ctx.rng, ctx.scratch
     ctx.model_cases, ctx.model_outs = [], []
-    n = 3000 if ctx.thorough else 300
+    # an escalated quick run (changed tree) takes three times the chains, the thorough tier ten times
+    n = (900 if getattr(ctx, "escalated", False) else 3000) if ctx.thorough else 300
     chains = gen_chains(rng, n)
     if ctx.replay and isinstance(ctx.replay.get("detail", {}).get("case"), dict):
         chains = [ctx.replay["detail"]["case"]]          # ./check C16 --replay <file>: that chain only
